@@ -48,6 +48,11 @@ CLAIMED = {
    "DESIGN.md §4 C16",
    "Trusted: SSA dominance/forward-path search on syntactic paths; anchors by API (descriptor.Table methods, DirentCache.Read, the WASI function that calls it). Everything else of C16 (offsets, append, truncate, directory contents) is not decided by this check.",
    "static: typestate/must-pass-through on go/ssa (dominance, forward path search), data/control dependence"),
+ "C18": ("proof",
+   "Sound static proof of the reachability clause for every guest and argument value: a capability worklist over the over-approximated call graph (static calls, VTA∪CHA for dynamic ones, function values taken) from all WASI host functions shows that no ambient-authority function or package variable of the standard library is reachable except through the listed injection points; the same analysis from every default binding (what is installed when an option is nil) reaches none either, keeps its state per constructor call, the default ModuleConfig sets no capability and hands nil through unmodified, and no map iteration (randomised order) occurs in the region. Tests can only observe particular traces; this covers every path.",
+   "DESIGN.md §4 C18",
+   "Trusted: the sink/pure classification table of standard-library packages, call-graph over-approximation (no reflect.Call / unsafe function pointers / linkname in the region – reflect.Call is itself a sink), injection-point list. Trace equality across engines is not decided.",
+   "static: capability reachability (worklist over go/ssa with VTA∪CHA call resolution) + ownership rules on the default bindings"),
 }
 
 NOT_APPLICABLE = {
